@@ -44,7 +44,7 @@ def e_Tuple(self, n):
     out = []
     for e in n.elts:
         if isinstance(e, ast.Starred):
-            out.extend(self.iterate(self.eval(e.value)))
+            out.extend(self.iterate(self.eval(e.value), concat=True))      # a display with *xs is a concatenation
         else:
             out.append(self.eval(e))
     return tuple(out)
